@@ -1,23 +1,28 @@
-(* C13 — the "sees the final output" clause: classification of how an engine that stops by itself can have
-   missed the final output, for every number of retries. *)
+(* C13 — the "sees the final output" clause, for any number of producers and every number of retries:
+   an engine that stops by itself and was able to consume has started an execution at or after the last
+   output of EVERY producer. *)
 From Coq Require Import ZArith List Bool Lia ZifyBool.
 Import ListNotations.
 Require Import V.Repeat.Model V.Repeat.Proofs.
 Open Scope Z_scope.
 
-Section Final.
-Variable c : cfg.
-Hypothesis Hd : c_has_delay c = false.
-
 (* time does not run backwards, nobody kills the engine from outside *)
 Definition okev (e : event) : Prop :=
   match e with Adv dt => 0 <= dt | Kill => False | Poll o => 0 <= o_dur o | _ => True end.
+
+(* execution x started at or after the latest output of every producer *)
+Definition after_all_output (c : cfg) (s : st) (t : Z) : Prop :=
+  forall i p l, nth_error (c_prods c) i = Some p -> lo_of (lo s) i = Some l -> l <= t.
+
+Section Final.
+Variable c : cfg.
+Hypothesis Hd : c_has_delay c = false.
 
 (* ... and no producer writes output once the producers are finished *)
 Fixpoint quiet (s : st) (evs : list event) : Prop :=
   match evs with
   | [] => True
-  | e :: r => okev e /\ (pf s = true -> e <> Out) /\ quiet (step c s e) r
+  | e :: r => okev e /\ (pf s = true -> forall i, e <> Out i) /\ quiet (step c s e) r
   end.
 
 Record INV (s : st) : Prop := {
@@ -25,15 +30,18 @@ Record INV (s : st) : Prop := {
   i_ll : c_t0 c <= ll s <= now s;
   i_e0 : execs s = [] -> ll s = c_t0 c;
   i_e1 : forall x r, execs s = x :: r -> x_launch x = ll s;
-  i_lo : forall l, lo s = Some l -> l <= now s;
+  i_lo : forall i l, lo_of (lo s) i = Some l -> l <= now s;
   i_pf : pf s = false -> cancel s = false }.
 
-Definition G (s : st) : Prop := forall l,
-  cancel s = true -> consume s = true -> lo s = Some l ->
-  (exists x, In x (execs s) /\ l <= x_launch x) \/ (execs s = [] /\ l <= c_t0 c).
+Definition G5 (s : st) : Prop :=
+  cancel s = true -> consume s = true -> exists x, In x (execs s) /\ after_all_output c s (x_launch x).
 
 Lemma INV_init : INV (init c).
-Proof. constructor; cbn; auto; try lia; discriminate. Qed.
+Proof.
+  constructor; cbn; auto; try lia; try discriminate.
+  intros i l. unfold lo_of. generalize (c_prods c). intros ps. revert i.
+  induction ps as [|p ps IH]; intros [|i]; cbn; try discriminate. apply IH.
+Qed.
 
 Lemma INV_act s o : INV s -> cancel s = false -> 0 <= o_dur o -> INV (act c s o).
 Proof.
@@ -44,162 +52,69 @@ Proof.
   - destruct (o_fail o); lia.
   - discriminate.
   - intros x r E. injection E as <- _. cbn. lia.
-  - intros l E. specialize (Hlo l E). destruct (o_fail o); lia.
+  - intros i l E. specialize (Hlo i l E). destruct (o_fail o); lia.
   - intros E. rewrite E. cbn. auto.
   - intros E. rewrite E. cbn. auto.
 Qed.
 
-Lemma G_act s o : INV s -> cancel s = false -> G (act c s o).
+(* the invocation that cancels: either it executed (at the current clock, which no output is newer than), or it
+   did not although the producers are finished - then it has executed before (fix F13), more recently than 20 s
+   ago, and no producer has output newer than that last launch *)
+Lemma G5_act s o : INV s -> cancel s = false -> G5 (act c s o).
 Proof.
-  intros [Hsu Har Hll He0 He1 Hlo Hpf] Hc l. unfold act. rewrite Hsu.
+  intros [Hsu Har Hll He0 He1 Hlo Hpf] Hc. unfold G5, act. rewrite Hsu.
   destruct (will_exec c s) eqn:Hw; unfold post, launched, not_launched; cbn.
-  - intros _ _ E. left. eexists. split; [left; reflexivity|]. cbn. apply Hlo, E.
+  - intros _ _. eexists. split; [left; reflexivity|]. cbn. intros i p l _ E. apply (Hlo i l E).
   - unfold post_cancel; cbn. rewrite Hsu, orb_false_r. cbn.
-    intros Hca Hco E.
+    intros Hca Hco.
+    destruct (pf s) eqn:Hp; [|congruence].
     unfold will_exec in Hw. rewrite Hco in Hw. cbn in Hw.
-    apply orb_false_iff in Hw. destruct Hw as [Hn Hp].
-    unfold isnew in Hn. destruct (negb (c_check_out c)); [discriminate|].
-    destruct (pf s && (now s - ll s >? 20000)); [discriminate|].
-    unfold newout in Hn. rewrite E in Hn.
-    assert (Hle : l <= ll s) by (destruct (c_has_prod c); [|discriminate]; destruct (c_prod_rep c); cbn in Hn; [lia|discriminate]).
-    destruct (execs s) as [|x r] eqn:Ex.
-    + right. split; auto. rewrite <- (He0 eq_refl). exact Hle.
-    + left. exists x. split; [left; reflexivity|]. rewrite (He1 x r eq_refl). exact Hle.
+    apply orb_false_iff in Hw. destruct Hw as [Hn _].
+    unfold isnew in Hn. destruct (negb (c_check_out c)); [discriminate|]. rewrite Hp in Hn. cbn in Hn.
+    destruct (execs s) as [|x r] eqn:Ex; cbn in Hn; [discriminate|].
+    destruct (now s - ll s >? 20000); [discriminate|].
+    exists x. split; [left; reflexivity|]. rewrite (He1 x r eq_refl).
+    intros i p l Hi E. unfold newout in Hn. apply (newout_l_false _ _ _ Hn i p l Hi E).
 Qed.
 
-Lemma step_ok s e : INV s -> G s -> okev e -> (pf s = true -> e <> Out) -> INV (step c s e) /\ G (step c s e).
+Lemma step_ok s e : INV s -> G5 s -> okev e -> (pf s = true -> forall i, e <> Out i) ->
+  INV (step c s e) /\ G5 (step c s e).
 Proof.
   intros HI HG Hok Hq. destruct e; cbn in *; unfold notify, set_flags, set_time.
   - destruct HI as [Hsu Har Hll He0 He1 Hlo Hpf]. split; [constructor; cbn; auto; try lia|].
-    + intros l E. specialize (Hlo l E). lia.
+    + intros j l E. specialize (Hlo j l E). lia.
     + exact HG.
-  - assert (Hp : pf s = false) by (destruct (pf s); auto; exfalso; apply Hq; auto).
+  - assert (Hp : pf s = false) by (destruct (pf s); auto; exfalso; apply (Hq eq_refl i); reflexivity).
     destruct HI as [Hsu Har Hll He0 He1 Hlo Hpf]. split; [constructor; cbn; auto; try lia|].
-    + intros l E. injection E as <-. lia.
-    + intros l Hca. cbn in Hca. rewrite (Hpf Hp) in Hca. discriminate.
+    + intros j l E. unfold lo_of in *. destruct (nth_set_nth (lo s) i j (Some (now s))) as [H|H]; rewrite H in E.
+      * injection E as <-. lia.
+      * apply (Hlo j l E).
+    + intros Hca. cbn in Hca. rewrite (Hpf Hp) in Hca. discriminate.
   - destruct HI as [Hsu Har Hll He0 He1 Hlo Hpf]. split; [|exact HG].
     constructor; cbn; auto; try lia; try discriminate; rewrite ?Har, ?Hd; reflexivity.
   - destruct Hok.
   - destruct HI as [Hsu Har Hll He0 He1 Hlo Hpf]. unfold suicide_ev. rewrite Har.
     split; [constructor; auto|exact HG].
-  - apply (poll_cases c s o (fun x => INV x /\ G x)).
+  - apply (poll_cases c s o (fun x => INV x /\ G5 x)).
     + split; auto.
     + intros x [[Hsu Har Hll He0 He1 Hlo Hpf] Hg]. split; [constructor; cbn; auto|exact Hg].
-    + intros _ Hc _. split; [apply INV_act; auto|apply G_act; auto].
+    + intros _ Hc _. split; [apply INV_act; auto|apply G5_act; auto].
 Qed.
 
-Lemma run_ok evs : forall s, INV s -> G s -> quiet s evs -> INV (run c s evs) /\ G (run c s evs).
+Lemma run_ok evs : forall s, INV s -> G5 s -> quiet s evs -> INV (run c s evs) /\ G5 (run c s evs).
 Proof.
   induction evs as [|e r IH]; intros s HI HG Hq; [cbn; auto|].
   rewrite run_cons. destruct Hq as (H1 & H2 & H3).
   destruct (step_ok s e HI HG H1 H2) as [A B]. apply IH; auto.
 Qed.
 
-(* For every number of retries: if the engine was not killed from outside, has no kill delay and no output is
-   written after the notification, then whenever it is cancelled (which it can then only have done itself)
-   and was able to consume, either some execution started at or after the producers' last output, or it
-   never executed at all and that output is not newer than the engine's own start. *)
-Lemma final_output_classified evs : quiet (init c) evs -> G (run c (init c) evs).
-Proof.
-  intros Hq. apply run_ok; auto using INV_init.
-  intros l H. cbn in H. discriminate.
-Qed.
-
-(* ---- with at least 5 retries the second case is impossible: the scheduler puts at least 5 s between two
-   invocations, so the invocation that would use the last retry comes more than 20 s after the start and is
-   forced to execute *)
-Hypothesis HR : 5 <= eff_retries c.
-
-Record INV2 (s : st) : Prop := {
-  j_b : forall b, beginning s = Some b -> b <= now s;
-  j_r : retries s <= eff_retries c;
-  j_pf : pf s = false -> retries s = eff_retries c;
-  j_k : pf s = true -> execs s = [] -> retries s < eff_retries c ->
-        exists b, beginning s = Some b /\ c_t0 c + 5000 * (eff_retries c - retries s - 1) <= b }.
-
-Definition G5 (s : st) : Prop := forall l,
-  cancel s = true -> consume s = true -> lo s = Some l -> exists x, In x (execs s) /\ l <= x_launch x.
-
-Lemma INV2_init : INV2 (init c).
-Proof. constructor; cbn; auto; try lia; try discriminate. Qed.
-
-Lemma sched_gap s b : sched c s = true -> beginning s = Some b -> b + 5000 <= now s.
-Proof.
-  unfold sched. intros H E. rewrite E in H.
-  destruct (last_fin s) as [f|]; cbn in H;
-    match type of H with (if ?x then _ else _) = true => destruct x eqn:Hx; [discriminate|] end; lia.
-Qed.
-
-Lemma INV2_act s o : INV s -> INV2 s -> cancel s = false -> sched c s = true -> 0 <= o_dur o -> INV2 (act c s o).
-Proof.
-  intros [Hsu Har Hll He0 He1 Hlo Hpf] [Jb Jr Jpf Jk] Hc Hs Hdur. unfold act. rewrite Hsu.
-  destruct (will_exec c s) eqn:Hw; unfold post, launched, not_launched; constructor; cbn -[Z.mul];
-    unfold post_retries; cbn -[Z.mul]; rewrite ?Hsu, ?Har, ?andb_false_r, ?orb_false_r, ?andb_true_r; cbn -[Z.mul].
-  - intros b E. injection E as <-. destruct (o_fail o); lia.
-  - brk; lia.
-  - intros E. rewrite E. cbn. auto.
-  - intros _ E. discriminate E.
-  - intros b E. injection E as <-. lia.
-  - brk; lia.
-  - intros E. rewrite E. cbn. auto.
-  - intros Hp Hx. rewrite Hp. cbn -[Z.mul]. intros H. eexists. split; [reflexivity|].
-    destruct (retries s =? 0) eqn:E0; cbn -[Z.mul] in *.
-    + destruct (Jk Hp Hx H) as (b & Eb & Hb). specialize (Jb b Eb). lia.
-    + destruct (Z.eq_dec (retries s) (eff_retries c)) as [Eq|Ne]; [lia|].
-      assert (Hlt : retries s < eff_retries c) by lia.
-      destruct (Jk Hp Hx Hlt) as (b & Eb & Hb). pose proof (sched_gap s b Hs Eb). lia.
-Qed.
-
-Lemma G5_act s o : INV s -> INV2 s -> cancel s = false -> sched c s = true -> G5 (act c s o).
-Proof.
-  intros HI [Jb Jr Jpf Jk] Hc Hs l Hca Hco E.
-  destruct (G_act s o HI Hc l Hca Hco E) as [H|[Hx Hl]]; [exact H|exfalso].
-  destruct HI as [Hsu Har Hll He0 He1 Hlo Hpf].
-  revert Hca Hco E Hx. unfold act. rewrite Hsu.
-  destruct (will_exec c s) eqn:Hw; unfold post, launched, not_launched; cbn; [discriminate|].
-  unfold post_cancel; cbn. rewrite Hsu, orb_false_r. cbn. intros Hca Hco E Hx.
-  destruct (pf s) eqn:Hp; [|congruence].
-  destruct (retries s =? 0) eqn:E0; [|congruence].
-  unfold will_exec in Hw. rewrite Hco in Hw. cbn in Hw. apply orb_false_iff in Hw. destruct Hw as [Hn _].
-  unfold isnew in Hn. destruct (negb (c_check_out c)); [discriminate|]. rewrite Hp in Hn. cbn in Hn.
-  destruct (now s - ll s >? 20000) eqn:E20; [discriminate|].
-  assert (Hlt : retries s < eff_retries c) by lia.
-  destruct (Jk eq_refl Hx Hlt) as (b & Eb & Hb). pose proof (sched_gap s b Hs Eb).
-  rewrite (He0 Hx) in E20. lia.
-Qed.
-
-Lemma step_ok5 s e : INV s -> G s -> INV2 s -> G5 s -> okev e -> (pf s = true -> e <> Out) ->
-  INV2 (step c s e) /\ G5 (step c s e).
-Proof.
-  intros HI HG H2 H5 Hok Hq. destruct e; cbn in *; unfold notify, set_flags, set_time.
-  - destruct H2 as [Jb Jr Jpf Jk]. split; [constructor; cbn; auto|exact H5].
-    intros b E. specialize (Jb b E). lia.
-  - assert (Hp : pf s = false) by (destruct (pf s); auto; exfalso; apply Hq; auto).
-    destruct H2 as [Jb Jr Jpf Jk]. split; [constructor; cbn; auto|].
-    intros l Hca. cbn in Hca. rewrite (i_pf s HI Hp) in Hca. discriminate.
-  - destruct H2 as [Jb Jr Jpf Jk]. split; [|exact H5].
-    constructor; cbn; auto; try discriminate.
-    intros _ Hx Hlt. destruct (pf s) eqn:Hp; [auto|]. specialize (Jpf eq_refl). lia.
-  - destruct Hok.
-  - unfold suicide_ev. rewrite (i_ar s HI). auto.
-  - apply (poll_cases c s o (fun x => INV2 x /\ G5 x)).
-    + split; auto.
-    + intros x [[Jb Jr Jpf Jk] Hg]. split; [constructor; cbn; auto|exact Hg].
-    + intros _ Hc Hs. split; [apply INV2_act; auto|apply G5_act; auto].
-Qed.
-
-Lemma run_ok5 evs : forall s, INV s -> G s -> INV2 s -> G5 s -> quiet s evs -> G5 (run c s evs).
-Proof.
-  induction evs as [|e r IH]; intros s HI HG H2 H5 Hq; [cbn; auto|].
-  rewrite run_cons. destruct Hq as (Q1 & Q2 & Q3).
-  destruct (step_ok s e HI HG Q1 Q2) as [A B]. destruct (step_ok5 s e HI HG H2 H5 Q1 Q2) as [C D].
-  apply IH; auto.
-Qed.
-
+(* For every number of retries and every number of producers: if the engine was not killed from outside, has no
+   kill delay and no output is written after the notification, then whenever it is cancelled (which it can then
+   only have done itself) and was able to consume, some execution started at or after every producer's last
+   output. *)
 Lemma sees_final_output evs : quiet (init c) evs -> G5 (run c (init c) evs).
 Proof.
-  intros Hq. apply run_ok5; auto using INV_init, INV2_init.
-  - intros l H. cbn in H. discriminate.
-  - intros l H. cbn in H. discriminate.
+  intros Hq. apply run_ok; auto using INV_init.
+  intros H. cbn in H. discriminate.
 Qed.
 End Final.
